@@ -112,6 +112,19 @@ def main(argv=None):
         print("replay: %d failure(s)" % len(fails))
         return 1 if fails else 0
 
+    # ---- 0. has the library source changed since the model was last aligned with it?  Then the model may no longer mirror the
+    #         code: correspondence and search run with four times as many cases (quick tier). The verdict logic does not change.
+    try:
+        from . import srcprint
+        changed_src = srcprint.changed_since_baseline()
+    except Exception:  # noqa
+        changed_src = ["<fingerprints unavailable>"]
+    if changed_src:
+        ctx.notes.append("library source differs from fingerprints.json in: " + ", ".join(changed_src[:12]))
+        ctx.count("source-functions-changed", len(changed_src))
+        if args.tier == "quick":
+            ctx.scale = 4.0
+
     # ---- 1-2. Lean stage
     if args.no_lean:
         lean = {"ok": True, "build_ok": True, "theorems": [], "axioms": {}, "bad_axioms": {}, "forbidden": [],
